@@ -10,7 +10,6 @@ import (
 	"fmt"
 	"math/rand"
 	"os"
-	"path/filepath"
 	"strings"
 	"sync"
 	"time"
@@ -24,6 +23,7 @@ const (
 	kUtf16Final    = "utf16-final-line-break"  // new: the appended line break is not transcoded
 	kJsonBackslash = "json-trailing-backslash" // new: go-text's JSON scanner ends a string at \\" one quote late
 	kJsonlCR       = "jsonl-cr-line-break"     // new: JSON Lines written with --line-break CR: the reader splits on LF only
+	kLtsvPartial   = "ltsv-partial-output"     // new: a refusal after more than one buffer of output leaves the earlier records written
 	kFixedUtf16    = "fixed-utf16-padding"     // new: fixed-length padding is counted in bytes but written as pad characters (2 bytes each in UTF-16)
 )
 
@@ -606,5 +606,44 @@ func (c *c02Run) endToEnd(tier string) {
 			c.meta.Samples = append(c.meta.Samples, body)
 		}
 	}
-	_ = filepath.Join
+	c.refusals()
+}
+
+// refusals: "a cell the format cannot spell is refused with an error and nothing is written".  LTSV values with a
+// TAB are refused by go-text; the refusal happens while the records are streamed, so what matters is whether
+// anything reached the --out file.  Early refusal (first record) and late refusal (after > 4 KiB) are separate keys.
+func (c *c02Run) refusals() {
+	for _, late := range []bool{false, true} {
+		sc := newScratch()
+		n := 3
+		if late {
+			n = 400
+		}
+		rows := make([][]*string, n)
+		for i := range rows {
+			rows[i] = []*string{sp(fmt.Sprintf("value%05d-%s", i, strings.Repeat("x", 24))), sp("y"), sp("g")}
+		}
+		bad := 0
+		if late {
+			bad = n - 1
+		}
+		rows[bad][0] = sp("bad\tvalue")
+		writeCSV(sc.Path("src.csv"), []string{"k1", "k2", "zz"}, rows)
+		args := []string{"--repository", sc.Dir, "--quiet", "-f", "LTSV", "--out", "out.ltsv", "SELECT k1, k2 FROM src"}
+		r := runCsvq(sc.Dir, args, "", 20*time.Second)
+		b, _ := os.ReadFile(sc.Path("out.ltsv"))
+		sc.Close()
+		c.meta.Evaluations++
+		c.meta.Distribution[fmt.Sprintf("e2e-refusal:late=%v", late)]++
+		cs := map[string]interface{}{"kind": "refusal", "format": "LTSV", "records": n, "unspellable_record": bad, "command": "csvq " + strings.Join(args, " "),
+			"exit_code": r.Code, "stderr": strings.TrimSpace(r.Stderr), "bytes_left_in_out_file": len(b)}
+		switch {
+		case r.Code == 0:
+			c.meta.Direct = append(c.meta.Direct, DirectViolation{Key: "unspellable-accepted", What: "an LTSV value containing TAB was written without an error", Case: cs})
+		case len(b) > 0 && late:
+			c.meta.Direct = append(c.meta.Direct, DirectViolation{Key: kLtsvPartial, What: fmt.Sprintf("LTSV refusal in record %d of %d left %d bytes in the --out file (nothing should be written)", bad+1, n, len(b)), Case: cs})
+		case len(b) > 0:
+			c.meta.Direct = append(c.meta.Direct, DirectViolation{Key: "unspellable-written", What: fmt.Sprintf("LTSV refusal in the first record left %d bytes in the --out file", len(b)), Case: cs})
+		}
+	}
 }
